@@ -24,6 +24,7 @@ class ZContract:
         solver = Solver()
         ex = Exec(lib=lib, calls=self.calls, mode='Z', solver=solver, loop_handler=make_loop_handler(self.invariants), fname=self.fn)
         ex.assume_asserts = set(spec.get('assume_asserts', ()))
+        ex.check_dtypes = bool(spec.get('check_dtypes'))
         st = State(args, list(requires))
         params = [a.arg for a in fnode.args.args]
         missing = [p for p in params if p not in args and p not in [a.arg for a in fnode.args.args[len(params) - len(fnode.args.defaults):]]]
@@ -97,7 +98,7 @@ def _afunc(ex, st, node, args, kw):
     x = args[0]
     if not getattr(x, 'is_zarr', False) or x.ndim != 1:
         raise Refuted('Afunc applied to a non-vector')
-    return ZArr(x.shape)
+    return ZArr(x.shape, 'complex')           # a Hermitian map may be complex even for a real vector
 
 def _lanczos():
     n = z3.Int('n'); m = z3.Int('numiter')
@@ -110,9 +111,9 @@ def _lanczos():
     def canary(ret, env, ex, st):
         alpha, beta, V = ret
         return [('c', zint(beta.shape[0]) == zint(alpha.shape[0]))]
-    return dict(args={'Afunc': _afunc, 'vstart': ZArr((n,)), 'numiter': m}, requires=[n >= 1, m >= 1], post=post, canary=canary, assume_asserts=['nrmv > 0'])
+    return dict(args={'Afunc': _afunc, 'vstart': ZArr((n,), 'param:vstart'), 'numiter': m}, requires=[n >= 1, m >= 1], post=post, canary=canary, assume_asserts=['nrmv > 0'], check_dtypes=True)
 
-CONTRACTS.append(ZContract('krylov.lanczos_iteration', _lanczos, ('C14', 'C15')))
+CONTRACTS.append(ZContract('krylov.lanczos_iteration', _lanczos, ('C14', 'C15', 'C08', 'C10')))
 
 def _arnoldi():
     n = z3.Int('n'); m = z3.Int('numiter')
@@ -124,7 +125,7 @@ def _arnoldi():
     def canary(ret, env, ex, st):
         H, V = ret
         return [('c', zint(V.shape[1]) == m)]
-    return dict(args={'Afunc': _afunc, 'vstart': ZArr((n,)), 'numiter': m}, requires=[n >= 1, m >= 1], post=post, canary=canary, assume_asserts=['nrmv > 0'])
+    return dict(args={'Afunc': _afunc, 'vstart': ZArr((n,), 'param:vstart'), 'numiter': m}, requires=[n >= 1, m >= 1], post=post, canary=canary, assume_asserts=['nrmv > 0'], check_dtypes=True)
 
 CONTRACTS.append(ZContract('krylov.arnoldi_iteration', _arnoldi, ('C14', 'C15')))
 
